@@ -8,7 +8,7 @@
  * variants: smtpd/qmtpd bit0 RELAYCLIENT, bit1 DATABYTES=50; popup 0 checkpassword=/bin/true, 1 /bin/false;
  *   inject 0 "-n", 1 "-n -H extra@arg.example" QMAILINJECT=f, 2 "-n -h -fsnd-@[]" QMAILINJECT=cfsirm QMAILNAME QMAILMFTFILE;
  *   qmqpd, pop3d (run as uid 65534 when we are root), local (input = contents of .qmail-ext, run with -n): 0 only.
- * exit -1 sig 9 san 0 = killed by us: not finished 10 s after its stdin was closed (or after it stopped reading).
+ * exit -1 sig 9 san 0 = killed by us: hung after its stdin was closed (or after it stopped reading); see expired().
  * Enumerated cases depend only on <level>; random cases on <seed> and <shard>.  The out-prefix / outlen of some
  * programs contain the time and pids (qp, APOP banner, Message-ID), so only exit/sig/san are reproducible there. */
 #include "hcommon.h"
@@ -199,14 +199,29 @@ static double cpu_s(pid_t pid)
   if (sscanf(q + 1, " %*c %*d %*d %*d %*d %*d %*u %*u %*u %*u %*u %lu %lu", &ut, &stt) != 2) return 0;
   return (double)(ut + stt) / (double)sysconf(_SC_CLK_TCK);
 }
-/* has the child hung?  TIMEOUT_S of wall time without progress - but on an overloaded machine (load average well above
- * the number of processors) a child that has hardly been given any CPU is starved, not hung: then wait up to 180 s. */
+/* has the child hung?  Decided on CPU time, not wall time (a wall-clock limit alone made a slow but finishing case - 58 k
+ * recipients through a sanitised qmail-inject - look hung on a machine shared with other work; thorough tier, seed 2).
+ * After TIMEOUT_S of wall time without progress on its descriptors the child is
+ *   busy-hung   if it has burnt CPU_LIMIT_S seconds of CPU (no generated case needs a tenth of that), or
+ *   blocked     if its CPU time has not advanced by 0.2 s during a further window of TIMEOUT_S (180 s when the load average
+ *               is well above the number of processors: starved, not hung);
+ * a child that keeps computing is given up to WALL_LIMIT_S. */
+#define CPU_LIMIT_S 90.0
+#define WALL_LIMIT_S 900.0
 static int expired(pid_t pid, double t0)
 {
-  double w = now_s() - t0, la[1];
+  static pid_t seen_pid;
+  static double seen_cpu, seen_t;
+  double now = now_s(), w = now - t0, la[1];
   if (w <= TIMEOUT_S) return 0;
+  double c = cpu_s(pid);
+  if (c >= CPU_LIMIT_S || w >= WALL_LIMIT_S) return 1;
+  if (pid != seen_pid) { seen_pid = pid; seen_cpu = c; seen_t = now; return 0; }
+  if (c - seen_cpu >= 0.2) { seen_cpu = c; seen_t = now; return 0; }
+  double idle = now - seen_t;
+  if (idle < TIMEOUT_S) return 0;
   long nc = sysconf(_SC_NPROCESSORS_ONLN);
-  if (w < 180.0 && getloadavg(la, 1) == 1 && la[0] > 1.5 * (double)(nc > 0 ? nc : 1) && cpu_s(pid) < TIMEOUT_S) return 0;
+  if (idle < 180.0 && getloadavg(la, 1) == 1 && la[0] > 1.5 * (double)(nc > 0 ? nc : 1)) return 0;
   return 1;
 }
 
